@@ -26,6 +26,7 @@ type UnitSpec struct {
 	Tier       string   `json:"tier,omitempty"`   // "thorough": only in the thorough tier
 	TimeoutS   int      `json:"timeout_s,omitempty"`
 	MaxInline  int      `json:"max_inline,omitempty"`
+	Reveal     bool     `json:"reveal,omitempty"`
 	Note       string   `json:"note,omitempty"`
 }
 
@@ -152,7 +153,7 @@ func RunProperty(id, tier string) int {
 		if us.NoPanic != nil {
 			np = *us.NoPanic
 		}
-		opt := Options{Unroll: us.Unroll, UnwindMust: us.Complete, NoPanic: np, NoContract: map[string]bool{}, MaxInline: us.MaxInline}
+		opt := Options{Unroll: us.Unroll, UnwindMust: us.Complete, NoPanic: np, NoContract: map[string]bool{}, MaxInline: us.MaxInline, Reveal: us.Reveal}
 		if !us.Complete && us.Unroll > 0 {
 			opt.Bounded = us.Bounded
 			if opt.Bounded == "" {
@@ -224,6 +225,65 @@ func RunProperty(id, tier string) int {
 		}
 	}
 	wg.Wait()
+
+	// Falsifier pass: an undecided lemma obligation (quantified VC: the solvers answer
+	// "unknown", never "sat") is retried with contracts ignored, spec functions revealed
+	// and loops unrolled, which is quantifier-free and yields a concrete model when the
+	// lemma is false for small unrollings.
+	for _, r := range runs {
+		if r.err != nil || r.spec.Kind != "lemma" {
+			continue
+		}
+		need := map[string]*Result{}
+		for _, res := range r.results {
+			if !res.Obl.Cover && res.Status != Proved && res.Model == nil && res.Obl.Kind == "lemma" {
+				need[res.Obl.Name] = res
+			}
+		}
+		if len(need) == 0 {
+			continue
+		}
+		fopt := Options{Unroll: 11, NoPanic: false, NoContract: map[string]bool{}, Reveal: true, InlineAll: true, MaxInline: r.spec.MaxInline}
+		if r.spec.Unroll > fopt.Unroll {
+			fopt.Unroll = r.spec.Unroll
+		}
+		fx := NewExec(prog, fopt, NewNotes())
+		var ferr error
+		func() {
+			defer func() {
+				if rec := recover(); rec != nil {
+					ferr = fmt.Errorf("%v", rec)
+				}
+			}()
+			ferr = fx.VerifyLemma(r.fn)
+		}()
+		if ferr != nil {
+			continue
+		}
+		fdir := filepath.Join(work, "falsify-"+sanitize(r.spec.Func))
+		os.MkdirAll(fdir, 0o755)
+		var fres []*Result
+		for _, o := range fx.Obls {
+			if _, ok := need[o.Name]; ok && !o.Cover {
+				fres = append(fres, prepare(fx.C, o, fdir))
+			}
+		}
+		var fwg sync.WaitGroup
+		for _, fr := range fres {
+			fwg.Add(1)
+			go func(fr *Result) { defer fwg.Done(); runSolvers(fr, 60) }(fr)
+		}
+		fwg.Wait()
+		for _, fr := range fres {
+			if fr.Status == Refuted && fr.Model != nil {
+				orig := need[fr.Obl.Name]
+				orig.Model = fr.Model
+				orig.Status = Refuted
+				orig.Obl.ModelTerms = fr.Obl.ModelTerms
+				orig.Output += "\nfalsifier (contracts ignored, definitions revealed, loops unrolled " + fmt.Sprint(fopt.Unroll) + "x): " + fr.Solver + " sat"
+			}
+		}
+	}
 
 	known := loadKnown()
 	matchKnown := func(obl string) *KnownFinding {
